@@ -137,16 +137,48 @@ func copyMaps() (map[string]reflect.Type, map[string]string) {
 
 type chanHolderMap map[string]interface{}
 
+// Struct types with a field the encoder can never write, after fields it can: an encode of one fails half
+// way through the struct.
+type BadTail struct {
+	A    int32
+	S    string
+	Done chan int
+}
+type BadMid struct {
+	A int32
+	F func()
+	Z string
+}
+type BadNested struct {
+	N  int32
+	In BadTail
+	T  string
+}
+
+const nC11Bad = 8
+
 func c11BadValue(ch *Choices) interface{} {
-	switch ch.Intn(4, "bad.kind") {
+	return c11BadValueKind(ch, ch.Intn(nC11Bad, "bad.kind"))
+}
+
+func c11BadValueKind(ch *Choices, kind int) interface{} {
+	switch kind {
 	case 0:
 		return make(chan int)
 	case 1:
 		return map[string]interface{}{"k": make(chan int)}
 	case 2:
 		return func() {}
-	default:
+	case 3:
 		return map[string]interface{}{"a": int32(1), "z": complex(1, 2)}
+	case 4:
+		return &BadTail{A: int32(ch.Intn(100, "bad.a")), S: "s"}
+	case 5:
+		return BadMid{A: int32(ch.Intn(100, "bad.a")), Z: "z"}
+	case 6:
+		return &BadNested{N: int32(ch.Intn(100, "bad.a")), In: BadTail{A: 2, S: "in"}, T: "t"}
+	default:
+		return []interface{}{int32(1), &BadTail{A: 3, S: "el"}, "after"}
 	}
 }
 
@@ -197,6 +229,7 @@ type c11State struct {
 	incomplete bool                // the caller has removed an entry: the maps are no longer complete
 	lastVal    interface{}         // the value drawn last
 	lastClass  string              // wire name of the class of the struct value drawn last
+	badKind    int                 // kind of the unrepresentable value the history encoded last (-1: none)
 	earlier    []c11Earlier
 	opLog      []string
 	aborted    int
@@ -312,7 +345,11 @@ func (st *c11State) histOp(kind int) {
 			}
 		})
 	case hEncodeBad:
-		v := c11BadValue(ch)
+		st.badKind = ch.Intn(nC11Bad, "bad.kind")
+		v := c11BadValueKind(ch, st.badKind)
+		if st.badKind >= 4 {
+			st.incomplete = true // the name map does not know these struct types: it is not complete for them
+		}
 		st.around("encode(unrepresentable)", nil, nil, func() { in.encode(v) })
 		st.o.Faults["encode of an unrepresentable value"]++
 	case hWriteToFault:
@@ -611,8 +648,16 @@ func (st *c11State) probe(label string) {
 	var v interface{}
 	var data []byte
 	if kind == pEncode || kind == pWriteTo {
-		if ch.Intn(8, "probe.bad") == 1 {
-			v = c11BadValue(ch)
+		if st.badKind >= 0 && ch.Intn(3, "probe.samebad") == 1 {
+			// the kind of unrepresentable value the history has already tried
+			v = c11BadValueKind(ch, st.badKind)
+			st.o.Probes["probe encodes the kind of unrepresentable value an earlier call failed on"]++
+		} else if ch.Intn(8, "probe.bad") == 1 {
+			k := ch.Intn(nC11Bad, "bad.kind")
+			v = c11BadValueKind(ch, k)
+			if k >= 4 {
+				st.incomplete = true // struct types the name map does not know
+			}
 		} else {
 			v = st.val()
 		}
@@ -691,7 +736,7 @@ func runC11(ch *Choices, cfg *RunCfg) (o *Outcome) {
 		}
 		o.Probes["caller's type map with classes registered through pointer types"]++
 	}
-	st := &c11State{o: o, ch: ch, g: NewGen(ch, c11Domain()), pair: pair}
+	st := &c11State{o: o, ch: ch, g: NewGen(ch, c11Domain()), pair: pair, badKind: -1}
 	st.in = c11New(pair, tm, nm)
 	st.tmDigest = mapsDigest(tm, nm)
 	st.tm0, st.nm0 = map[string]reflect.Type{}, map[string]string{}
